@@ -372,6 +372,13 @@ def main(repo_path, tier, seed, replay=None):
         check_regions(run, repo, 2, fixed_lsbits=(5, 9))
     check_loop_shape(run, repo)
     check_abort_bookkeeping(run, repo)
+    # D (continued): the Data Abort entry itself - LR_abt = faulting instruction + 8, SPSR_abt = the interrupted CPSR, mode, masks,
+    # vector - is the data-abort row of the exception-entry table (C11-T re-evaluated here)
+    from . import c11
+    before = len(run.findings)
+    c11.compare_entry(run, repo, 'take_data_abort_exception', rule='C14-D')
+    run.instance('C14-D', 'take_data_abort_exception entry table', obligations=6, ok=len(run.findings) == before,
+                 sample={'function': 'Registers.take_data_abort_exception'})
     # O: a faulting access performs no base-register write-back (the C02-O / C03-O ordering rule)
     from . import c02
     before = len(run.findings)
